@@ -4,6 +4,7 @@ import (
 	"errors"
 	"fmt"
 	"log"
+	"math"
 	"sort"
 	"sync"
 
@@ -350,7 +351,13 @@ func Consensus(trees <-chan Trees, cutoff float64) (*Tree, error) {
 	// We take the bipartitions that are present in more than cutoff trees and less
 	// than or equal the number of trees
 	// And we add it to the startree
-	for _, bs := range edgeindex.Edges(int(cutoff*float64(nbtrees)), nbtrees) {
+	// Bipartitions present in strictly more than cutoff*nbtrees trees: the float
+	// product may round up to an integer that the exact product does not reach
+	minCount := int(cutoff * float64(nbtrees))
+	if math.FMA(cutoff, float64(nbtrees), -float64(minCount)) < 0 {
+		minCount--
+	}
+	for _, bs := range edgeindex.Edges(minCount, nbtrees) {
 		names := make([]string, 0, bs.key.Bitset().Count())
 		for _, n := range alltips {
 			if idx, err := startree.TipIndex(n); err != nil {
